@@ -218,16 +218,26 @@ def check(ctx) -> None:
     sent = [norm(e) for e in send.args[0].elts]
     got = [norm(e) for e in unpack.targets[0].elts]
     ctx.check("C31.pipe", send, len(sent) == len(got), f"the child sends {len(sent)} values, the parent unpacks {len(got)}", what=f"{len(sent)} values sent and unpacked")
-    ROLE = [("tracer", "tracer"), ("module_provider", "module_provider"), ("results", "results"), ("references_bindings", "references_bindings"), ("getstate", "random_state")]
-    ok = len(sent) == len(got) == len(ROLE) and all(r_s in s and r_g in g for (r_s, r_g), s, g in zip(ROLE, sent, got))
-    ctx.check("C31.pipe", unpack, ok, f"sent {sent} is unpacked as {got}: the roles do not line up", what="roles of the 5 values line up", stmt="[roles]")
-    ok = "randomness.RNG.getstate()" in sent and any(isinstance(n, ast.Call) and norm(n) == "randomness.RNG.setstate(random_state)" for n in own_nodes(recv_fn))
+    # roles by position: what the child puts at position i is what the parent uses the i-th unpacked name for
+    def at(pred):
+        i = next((k for k, e in enumerate(sent) if pred(e)), None)
+        return got[i] if i is not None and i < len(got) else None
+
+    rng_name = at(lambda e: e.endswith("RNG.getstate()"))
+    tracer_name = at(lambda e: e.endswith("instrumentation_tracer.tracer"))
+    provider_name = at(lambda e: e == "module_provider")
+    results_name = at(lambda e: e == "results")
+    bindings_name = at(lambda e: "references_bindings" in e)
+    ok = None not in (rng_name, tracer_name, provider_name, results_name, bindings_name) and len({rng_name, tracer_name, provider_name, results_name, bindings_name}) == 5
+    ctx.check("C31.pipe", unpack, ok, f"sent {sent} is unpacked as {got}: tracer, module provider, results, new bindings and RNG state cannot be told apart by position", what="the 5 values have one position each", stmt="[roles]")
+    ok = rng_name is not None and any(isinstance(n, ast.Call) and norm(n.func).endswith("RNG.setstate") and n.args and norm(n.args[0]) == rng_name for n in own_nodes(recv_fn))
     ctx.check("C31.pipe", recv_fn, ok, "the RNG state sent by the child is not the one installed in the parent", what="RNG state carried back", stmt="[rng]")
-    z = next((n for n in own_nodes(recv_fn) if isinstance(n, ast.Call) and norm(n.func) == "zip" and "results" in [norm(a) for a in n.args]), None)
-    ok = z is not None and [norm(a) for a in z.args] == ["results", "context.references_bindings", "new_references_bindings"] and any(k.arg == "strict" and norm(k.value) == "True" for k in z.keywords)
+    z = next((n for n in own_nodes(recv_fn) if isinstance(n, ast.Call) and norm(n.func) == "zip" and results_name in [norm(a) for a in n.args]), None)
+    zargs = [norm(a) for a in z.args] if z is not None else []
+    ok = z is not None and len(zargs) == 3 and zargs[0] == results_name and zargs[2] == bindings_name and "references_bindings" in zargs[1] and zargs[1] != bindings_name and any(k.arg == "strict" and norm(k.value) == "True" for k in z.keywords)
     ctx.check("C31.pipe", z or recv_fn, ok, "results are not zipped (strictly) with the old and new reference bindings in that order", what="zip(results, old bindings, new bindings, strict=True)", stmt="[zip]")
     st = [n for n in own_nodes(recv_fn) if isinstance(n, ast.Assign) and norm(n.targets[0]).endswith("instrumentation_tracer.tracer.state")]
-    ctx.check("C31.pipe", st[0] if st else recv_fn, len(st) == 1 and norm(st[0].value) == "new_tracer.state", "the tracer state of the child is not installed in the parent's tracer", what="tracer state carried back", stmt="[tracer-state]")
+    ctx.check("C31.pipe", st[0] if st else recv_fn, len(st) == 1 and norm(st[0].value) == f"{tracer_name}.state", "the tracer state of the child is not installed in the parent's tracer", what="tracer state carried back", stmt="[tracer-state]")
 
     # ------------------------------------------------------------------ C31.state
     getter = repo.func(TR, "ExecutionTracer.state")
